@@ -66,7 +66,8 @@ def summarize(res):
 
 
 def _task(args):
-    kind, cname, timeout_ms, canary_idx, extra_requires = args
+    kind, cname, timeout_ms, canary_idx, extra_requires = args[:5]
+    cfg_slice = args[5] if len(args) > 5 else None
     try:
         c = CONTRACTS[cname]
         overrides = None
@@ -90,7 +91,7 @@ def _task(args):
             c = copy.copy(c)
             c.requires = list(c.requires) + list(extra_requires)
         res = verify.verify_contract(c, spec.REGISTRY, overrides=overrides, timeout_ms=timeout_ms,
-                                     max_refuted=1 if kind == 'canary' else 3)
+                                     max_refuted=1 if kind == 'canary' else 3, cfg_slice=cfg_slice)
         out = summarize(res)
         out['kind'] = kind
         if kind == 'canary':
@@ -180,7 +181,14 @@ def run_check(prop, tier, seed):
     tasks = []
     for c in cs:
         extra = [('not (%s)' % k['exclude']) for k in known_here if k.get('contract') == c.name]
-        tasks.append(('verify', c.name, timeout_ms, None, tuple(extra)))
+        nsplit = 1
+        if c.fp or getattr(c, 'split_configs', False):
+            try:
+                nsplit = min(8, max(1, len(verify.enumerate_configs(c.params))))
+            except Exception:
+                nsplit = 1
+        for j in range(nsplit):
+            tasks.append(('verify', c.name, timeout_ms, None, tuple(extra), (j, nsplit) if nsplit > 1 else None))
     run_canaries = True
     if run_canaries:
         for c in cs:
@@ -202,6 +210,32 @@ def run_check(prop, tier, seed):
     samples = []
     replay_dir = os.path.join(VERIF, 'replay')
     os.makedirs(replay_dir, exist_ok=True)
+
+    # ---- merge per-config-slice results of one contract ---------------------------------------
+    merged = {}
+    order = []
+    for r in [r for r in results if r['kind'] == 'verify']:
+        nm = r['name']
+        if nm not in merged:
+            merged[nm] = r
+            order.append(nm)
+            continue
+        m = merged[nm]
+        m['obligations'] = m.get('obligations', []) + r.get('obligations', [])
+        for k in ('paths', 'seconds', 'symex_seconds'):
+            m[k] = (m.get(k) or 0) + (r.get(k) or 0)
+        for k in ('callee_contracts', 'inlined', 'assumed'):
+            m[k] = sorted(set(m.get(k) or []) | set(r.get(k) or []))
+        m['fallback'] = m.get('fallback') or r.get('fallback')
+        m['error'] = m.get('error') or r.get('error')
+        m['vacuity'] = (m.get('vacuity') or []) + (r.get('vacuity') or [])
+    if merged:
+        for m in merged.values():
+            vac = m.get('vacuity') or []
+            if m.get('error') and 'requires unsatisfiable in every configuration' in str(m['error']) and \
+                    any(v['requires_satisfiable'] != 'unsat' for v in vac):
+                m['error'] = None
+    results = [merged[nm] for nm in order] + [r for r in results if r['kind'] != 'verify']
 
     # ---- main verification results -------------------------------------------------------
     for r in [r for r in results if r['kind'] == 'verify']:
@@ -237,14 +271,22 @@ def run_check(prop, tier, seed):
             undecided.append({'contract': r['name'], 'obligation': o['id'], 'why': 'solver: %s' % o.get('reason')})
         # replay refuted obligations (distinct clause keys, first model each)
         seen = set()
+        confirmed_here = 0
         for o in bad:
             key = ob_key(o, r['name'])
-            if key in seen:
+            ckey = '%s|%s|%s' % (r['name'], o['kind'], o.get('clause') or o['name'])
+            if key in seen or ckey in seen:
                 continue
             seen.add(key)
+            if confirmed_here >= 2:
+                undecided.append({'contract': r['name'], 'obligation': o['id'],
+                                  'why': 'refuted; not replayed (two violations of this contract already confirmed)'})
+                continue
             verdict, path = replay_and_decide(prop, c, o, key, ledger, None)
             if verdict == 'violation':
                 violations.append((key, path, ''))
+                confirmed_here += 1
+                seen.add(ckey)
             elif verdict == 'violation-noinput':
                 violations.append((key, path, ' no-failing-input-found'))
             else:
